@@ -301,4 +301,30 @@ func SolveAll(obls []*Obligation, opts solveOpts) {
 		}(o)
 	}
 	wg.Wait()
+	// An obligation no solver decided in the parallel pass is tried again with the machine to itself (two at
+	// a time, three times the budget): a time-out under load is not a reason to raise an alarm.
+	var retry []*Obligation
+	for _, o := range obls {
+		if !o.ExpectSat && o.Answer != "sat" && o.Answer != "unsat" {
+			retry = append(retry, o)
+		}
+	}
+	if len(retry) == 0 || len(retry) > 12 {
+		return
+	}
+	ropts := opts
+	ropts.timeoutS = opts.timeoutS * 3
+	sem2 := make(chan struct{}, 2)
+	for _, o := range retry {
+		wg.Add(1)
+		sem2 <- struct{}{}
+		go func(o *Obligation) {
+			defer wg.Done()
+			defer func() { <-sem2 }()
+			first := o.Answer
+			Solve(o, ropts)
+			o.Output = "first pass: " + first + "; retried alone: " + o.Output
+		}(o)
+	}
+	wg.Wait()
 }
